@@ -20,7 +20,7 @@ use trion::asm::arcob::Arcob;
 use trion::asm::constant::Realm;
 use trion::asm::directive::DirectiveList;
 use trion::asm::instr::InstructionSet;
-use trion::asm::simplify::{evaluate, simplify, EvalError, Evaluation, OverflowError, SimplifyError};
+use trion::asm::simplify::{evaluate, neutralize, simplify, EvalError, Evaluation, OverflowError, SimplifyError};
 use trion::asm::Context;
 use trion::text::parse::{Argument, ArgumentType, ElementValue, Parser};
 use trion::text::token::Number;
@@ -363,6 +363,20 @@ fn real_simplify(t: &T) -> Out
 	}
 }
 
+/// `neutralize` called directly (public; inside the crate it only runs on trees `simplify_raw` has type-checked, so its own
+/// operand-type refusals are reached only here)
+fn real_neutralize(t: &T) -> Out
+{
+	let mut a = t.to_arg();
+	match guarded(|| {let r = neutralize(&mut a); (r, T::from_arg(&a))})
+	{
+		Ok((Ok(changed), tree)) => Out::Ok{changed, cause: None, tree},
+		Ok((Err(SimplifyError::BadType{kind, op}), _)) => Out::Err(format!("badtype {} {}", ty_name(kind), ty_name(op))),
+		Ok((Err(SimplifyError::Overflow(e)), _)) => Out::Err(format!("overflow {}", ov_name(&e))),
+		Err(p) => Out::Panic(p),
+	}
+}
+
 /// what the harness knows about an identifier
 #[derive(Clone, Debug, PartialEq)]
 enum Bind
@@ -592,6 +606,25 @@ fn check_simplify(cx: &mut Cx, t: &T, replies: &[String])
 		Out::Err(e) => cx.report.hit(&format!("simplify:err {}", e.split(' ').next().unwrap_or(""))),
 		Out::Panic(_) => cx.report.hit("simplify:panic"),
 	}
+	// `neutralize` on the same tree (the last reply): correspondence, no panic, and on closed arithmetic trees the value is kept
+	let neu = real_neutralize(t);
+	cx.report.compare("model.simp.neutralize", &format!("N {}", t.text()), replies.last().unwrap(), &neu.simp_text());
+	match &neu
+	{
+		Out::Ok{tree, ..} =>
+		{
+			cx.report.hit("neutralize:ok");
+			if t.arithmetic() && t.idents().is_empty() && tree.arithmetic()
+			{
+				if let (Spec::Val(a), Spec::Val(b)) = (spec(t), spec(tree))
+				{
+					if a != b {cx.report.oracle_fail(format!("N {}", t.text()), format!("neutralize changes the value of the expression from {a} to {b}: {}", tree.text()));}
+				}
+			}
+		},
+		Out::Err(e) => cx.report.hit(&format!("neutralize:err {}", e.split(' ').take(2).collect::<Vec<_>>().join(" "))),
+		Out::Panic(p) => {cx.report.hit("neutralize:panic"); cx.report.oracle_fail(format!("N {}", t.text()), format!("neutralize panicked: {p}"));},
+	}
 	if t.arithmetic() && t.idents().is_empty()
 	{
 		// C07 oracle, on simplify and on evaluate with an empty table
@@ -636,6 +669,7 @@ fn simplify_requests(t: &T) -> Vec<String>
 		v.push(format!("simp spec {txt}"));
 		v.push(format!("simp inscope {txt}"));
 	}
+	v.push(format!("simp neutralize {txt}"));
 	v
 }
 
@@ -898,10 +932,10 @@ fn assemble(text: &str) -> Result<Vec<u8>, String>
 	let directives = DirectiveList::generate();
 	let mut ctx = Context::new(&Arm6M, &directives);
 	drop(ctx.assemble(text.as_bytes(), PathBuf::from("t.asm")));
-	if let Err(e) = ctx.close_segment() {return Err(format!("close: {e}"));}
+	if let Err(e) = ctx.close_segment() {return Err(format!("close: {}", crate::errkind::seg_kind(&e)));}
 	if !ctx.finalize()
 	{
-		return Err(ctx.get_errors().iter().map(|e| format!("{e}")).collect::<Vec<_>>().join("; "));
+		return Err(ctx.get_errors().iter().map(|e| format!("{}:{}:{}", e.line, e.col, crate::errkind::diag_kind(&e.value))).collect::<Vec<_>>().join("; "));
 	}
 	let mut out = Vec::new();
 	for (_, data) in ctx.output().iter() {out.extend_from_slice(data);}
@@ -1694,7 +1728,7 @@ fn replay(cx: &mut Cx, input: &str)
 	}
 	match words.first().copied()
 	{
-		Some("S") =>
+		Some("S" | "N") =>
 		{
 			match T::parse_text(&words[1..].join(" "))
 			{
